@@ -191,6 +191,29 @@ SEQ_STATES = [("data", None, False), ("data", None, True), ("rcdata", "title", F
               ("plaintext", None, False)]
 
 
+def charref_family():
+    import html.entities
+    edges = set()
+    for v in (0, 1, 8, 9, 0xA, 0xB, 0xC, 0xD, 0xE, 0x1F, 0x20, 0x7E, 0x7F, 0x80, 0x9F, 0xA0, 0xD7FF, 0xD800, 0xDBFF, 0xDC00, 0xDFFE, 0xDFFF, 0xE000,
+              0xFDCF, 0xFDD0, 0xFDEF, 0xFDF0, 0xFFFD, 0xFFFE, 0xFFFF, 0x10000, 0x1FFFE, 0x1FFFF, 0x20000, 0x10FFFE, 0x10FFFF, 0x110000, 0x7FFFFFFF):
+        edges.add(v)
+    for v in range(0x80, 0xA0):
+        edges.add(v)
+    for v in sorted(edges):
+        for form in ("&#x%X;", "&#x%x", "&#X%x;", "&#%d;", "&#%d", "&#0000000%d;", "&#x0000000%x;"):
+            yield form % v
+            yield form % v + "z"
+    names = html.entities.html5
+    legacy = sorted(n for n in names if not n.endswith(";"))
+    full = sorted(names)
+    for e in legacy:
+        for L in full:
+            if L.startswith(e) and len(L) > len(e) + 1:
+                for cut in range(len(e) + 1, min(len(L), len(e) + 3)):
+                    for end in ("", " ", "=", "&", "1", ";"):
+                        yield "&" + L[:cut] + end
+
+
 def shard(ctx):
     install()
     k = 0
@@ -222,6 +245,16 @@ def shard(ctx):
                 for sub in ("x", "\x00", "K", "İ", " ", ">", "-", "]"):
                     if cut < len(L):
                         judge(ctx, L[:cut] + sub + L[cut + 1:], st, None if cd else last, cd, "lookahead")
+    # character references: every numeric range edge of the standard, and every semicolon-less legacy name followed by
+    # letters that still spell the start of a longer name (the match must be judged at the character after the NAME)
+    for text in charref_family():
+        k += 1
+        if not ctx.mine(k):
+            continue
+        judge(ctx, text, "data", None, False, "charref")
+        judge(ctx, text, "rcdata", "title", False, "charref")
+        for q in ('"', "'", ""):
+            judge(ctx, "<p a=%s%s%s>" % (q, text, q), "data", None, False, "charref")
     # bounded-exhaustive: EVERY string of up to SEQ_LEN symbols over SEQ_SYMBOLS, in every start-state configuration
     total, it = gen.all_sequences(SEQ_SYMBOLS, SEQ_LEN[ctx.tier], ctx.i, ctx.n)
     t_seq = time.time() + ctx.time_left() * 0.6
